@@ -289,7 +289,7 @@ def prove(name, hyps, goal, timeout_ms=30000, rounds=6, use_cvc5=True, quant_fre
                 neg = z3.simplify(-c)
                 apps["EXP"].setdefault(neg.get_id(), neg)
     extra_args = {k: dict(v) for k, v in apps.items()}
-    hyps2, goal, n_unified = unify_uf_args(base, goal, apps)
+    hyps2, goal, n_unified = unify_uf_args(base, goal, apps, max_pairs=40 if timeout_ms >= 20000 else 10, timeout_ms=min(2000, max(200, int(timeout_ms) // 15)))
     if n_unified:
         base = hyps2
         apps, consts = _collect(base + [goal])
@@ -338,7 +338,7 @@ def prove(name, hyps, goal, timeout_ms=30000, rounds=6, use_cvc5=True, quant_fre
         r = s.check()
         if r == z3.unknown:
             # slow queries are the unstable ones: retry the same assertions with other seeds before giving up
-            for seed in (1, 2):
+            for seed in ((1, 2) if timeout_ms >= 20000 else ()):
                 s2 = z3.Solver()
                 s2.set("timeout", int(timeout_ms))
                 s2.set("random_seed", seed)
